@@ -82,6 +82,9 @@ def check(ctx):
         else:
             ctx.traces_validated += 1
     after_part(ctx)
+    # one observer attached to two sources (directly / behind operators): values, at most one terminal, then silence; the rest dropped
+    rows = R.run_kind(ctx, 'sharedobs', shards=2)
+    R.compare(ctx, rows, proj_all, 'C01 one observer attached through Subscribe to two sources', oracle=oracle_grammar, oracle_is_property=True, nontrivial=lambda c, gd: True, max_report=2)
     return dict(search=combine_search(k.get('search'), table_after_search), assumptions=k.get('assumptions'), extra=k.get('extra'), rule=(k.get('rule', '') + '; ' if k.get('rule') else '') + 'random chains of 2-5 int->int operators (sync/hot, cuts) + ' + 'every catalogue operator x parameters x variants x raw scripts (exhaustive to length 2/3 over {-1,0,2,3}, three endings, '
                      'illegal suffixes N/C/E after the terminal, seeded longer scripts) x {sync, hot} source x external cut; '
                      'compared: kinds of delivered notifications + multiset of dropped notifications; oracle: Grammar on the implementation trace; '
